@@ -82,12 +82,15 @@ package fragswarm
 //@
 //@ func keyForAddr
 //@   allowpanic
+//@   pure
+//@   fnspec MarshalText:
+//@     pure
 //@
 //@ func (*swarm).Tell
 //@   noframe
 //@   fuel 5
 //@   requires s.msgIDs != nil
-//@   ensures sumlen(lens(data), len(data)) > old(s.mtu) ==> ret != nil
+//@   ensures old(sumlen(lens(data), len(data)) > s.mtu) ==> ret != nil
 //@   before call newMessage#0:
 //@     assert arg1 == 0 && arg2 == 1 && len(arg3) == size
 //@   before call Tell#0:
